@@ -14,7 +14,7 @@ from ..own import Ownership, class_attr_aliases, class_mutation_sinks, arraylike
 from ..symx import Expander
 from ..anf import R
 from .. import anf
-from .common import struct_ob, formula_ob, guard, last_return
+from .common import struct_ob, formula_ob, guard, last_return, U
 from . import mcmc
 from ..report import AnalysisError
 
@@ -60,8 +60,8 @@ def run(prog, tier):
 
     # ------------------------------------------------------------ Parameter.add_sample really appends
     pc, add = prog.method("Parameter", "add_sample")
-    ok = any(isinstance(n, ast.Call) and ast.unparse(n.func) == "self.samples.append"
-             and ast.unparse(n.args[0]) == add.args.args[1].arg for n in ast.walk(add))
+    ok = any(isinstance(n, ast.Call) and U(n.func) == "self.samples.append"
+             and U(n.args[0]) == add.args.args[1].arg for n in ast.walk(add))
     obs.append(struct_ob("pair-append", qual(pc, add), ok, "Parameter.add_sample must append its argument to self.samples",
                          pc.module.relpath, add.lineno))
 
@@ -75,12 +75,12 @@ def run(prog, tier):
         if isinstance(node, ast.Assign):
             for t in node.targets:
                 if isinstance(t, ast.Subscript):
-                    base = ast.unparse(t.value)
+                    base = U(t.value)
                     idx = t.slice.elts[0] if isinstance(t.slice, ast.Tuple) else t.slice
                     if base == "self.walker_positions":
-                        ev.append(("W_POS", node.lineno, ast.unparse(idx) + "<-" + ast.unparse(node.value)))
+                        ev.append(("W_POS", node.lineno, U(idx) + "<-" + U(node.value)))
                     elif base == "self.walker_probs":
-                        ev.append(("W_PROB", node.lineno, ast.unparse(idx) + "<-" + ast.unparse(node.value)))
+                        ev.append(("W_PROB", node.lineno, U(idx) + "<-" + U(node.value)))
         return ev
     en = Enumerator(cls_w, None, None, unroll=unroll)
     paths = en.function(aw)
@@ -102,7 +102,7 @@ def run(prog, tier):
             vals = {k: e[2].split("<-")[1] for ev, s in paths for e in ev for k in [e[0]]}
             pdef = mcmc.last_def(aw, vals.get("W_PROB", ""), 10 ** 9)
             pc_ = mcmc.posterior_calls(pdef.value) if pdef is not None else []
-            if not (len(pc_) == 1 and ast.unparse(pc_[0].args[0]) == vals.get("W_POS")):
+            if not (len(pc_) == 1 and U(pc_[0].args[0]) == vals.get("W_POS")):
                 ok, why = False, (f"walker_probs[{param}] is written with `{vals.get('W_PROB')}` which is not "
                                   f"posterior(`{vals.get('W_POS')}`)")
     else:
@@ -129,14 +129,14 @@ def run(prog, tier):
                     if isinstance(t, ast.Subscript):
                         writes.append(t)
         if st.kind == "attr":
-            ok = len(writes) == 1 and ast.unparse(writes[0].value) == f"self.{st.S}" and ast.unparse(writes[0].slice) == "-1"
+            ok = len(writes) == 1 and U(writes[0].value) == f"self.{st.S}" and U(writes[0].slice) == "-1"
         else:
             ok = (len(writes) == 1 and isinstance(writes[0].value, ast.Attribute) and writes[0].value.attr == st.S[1]
-                  and ast.unparse(writes[0].slice) == "-1"
-                  and any(isinstance(n, ast.For) and f"self.{st.S[0]}" in ast.unparse(n.iter) for n in ast.walk(fn)))
+                  and U(writes[0].slice) == "-1"
+                  and any(isinstance(n, ast.For) and f"self.{st.S[0]}" in U(n.iter) for n in ast.walk(fn)))
         obs.append(struct_ob("replace-last", qual(c, fn), ok,
                              f"replace_last must overwrite exactly the last element of the sample store {st.S}; writes: "
-                             f"{[ast.unparse(w) for w in writes]}", c.module.relpath, fn.lineno))
+                             f"{[U(w) for w in writes]}", c.module.relpath, fn.lineno))
 
     # ------------------------------------------------------------ mode
     for cname in ("MetropolisChain", "HamiltonianChain", "EnsembleSampler"):
@@ -243,9 +243,9 @@ def _provenance(fn, s_ev, p_ev):
         return False, f"value appended to the probability store (`{p_ev[2]}`) does not come from one posterior call"
     arg = mcmc.resolve_name(fn, calls[0].args[0], 10 ** 9)
     src = mcmc.resolve_name(fn, sexpr, s_ev[1])
-    if ast.unparse(arg) != ast.unparse(src):
-        return False, (f"log-probability appended is posterior(`{ast.unparse(arg)}`) but the sample appended is "
-                       f"`{ast.unparse(src)}`")
+    if U(arg) != U(src):
+        return False, (f"log-probability appended is posterior(`{U(arg)}`) but the sample appended is "
+                       f"`{U(src)}`")
     return True, ""
 
 
@@ -254,19 +254,19 @@ def _ensemble_append(c, adv, erel):
     loops = [n for n in adv.body if isinstance(n, ast.For)]
     ok, why = False, "no iteration loop"
     for lp in loops:
-        if ast.unparse(lp.iter) != f"range({adv.args.args[1].arg})":
+        if U(lp.iter) != f"range({adv.args.args[1].arg})":
             continue
-        calls = [ast.unparse(s.value) for s in lp.body if isinstance(s, ast.Expr)]
+        calls = [U(s.value) for s in lp.body if isinstance(s, ast.Expr)]
         adv_all = [x for x in calls if "advance_all" in x]
         apps = {}
         for s in lp.body:
             if isinstance(s, ast.Expr) and isinstance(s.value, ast.Call) and isinstance(s.value.func, ast.Attribute) \
                     and s.value.func.attr == "append":
-                apps[ast.unparse(s.value.func.value)] = ast.unparse(s.value.args[0])
+                apps[U(s.value.func.value)] = U(s.value.args[0])
         src = {}
         for st in adv.body:
             if isinstance(st, ast.Assign) and len(st.targets) == 1:
-                src[ast.unparse(st.targets[0])] = ast.unparse(st.value)
+                src[U(st.targets[0])] = U(st.value)
         s_list = [k for k, v in apps.items() if v == "self.walker_positions.copy()"]
         p_list = [k for k, v in apps.items() if v == "self.walker_probs.copy()"]
         if len(adv_all) == 1 and len(s_list) == 1 and len(p_list) == 1 and len(apps) == 2:
@@ -288,19 +288,19 @@ def _init_pairs(prog, stores):
     # MetropolisChain: probs.append(posterior(get_last()) ...) and get_last reads samples[-1] of self.params
     c, init = prog.method("MetropolisChain", "__init__")
     rel = c.module.relpath
-    app = [n for n in ast.walk(init) if isinstance(n, ast.Call) and ast.unparse(n.func) == "self.probs.append"]
+    app = [n for n in ast.walk(init) if isinstance(n, ast.Call) and U(n.func) == "self.probs.append"]
     ok = False
     why = "no probs.append in the constructor"
     if len(app) == 1:
         pcs = mcmc.posterior_calls(app[0])
-        ok = len(pcs) == 1 and ast.unparse(pcs[0].args[0]) == "self.get_last()"
-        why = f"starting log-probability is `{ast.unparse(app[0].args[0])}`"
+        ok = len(pcs) == 1 and U(pcs[0].args[0]) == "self.get_last()"
+        why = f"starting log-probability is `{U(app[0].args[0])}`"
         gl = prog.method("MetropolisChain", "get_last")[1]
         ret = last_return(gl)
-        ok = ok and ret is not None and "p.samples[-1] for p in self.params" in ast.unparse(ret.value)
+        ok = ok and ret is not None and "p.samples[-1] for p in self.params" in U(ret.value)
         # params are built from start
         psites = prog.self_assignments(prog.cls("MetropolisChain"), "params", methods={"__init__"})
-        ok = ok and len(psites) == 1 and "Parameter(value=v, sigma=s) for v, s in zip(start, widths)" in ast.unparse(psites[0][3])
+        ok = ok and len(psites) == 1 and "Parameter(value=v, sigma=s) for v, s in zip(start, widths)" in U(psites[0][3])
     out.append(struct_ob("init-pair", qual(c, init), ok,
                          "P[0] must be posterior(S[0]) for the stored start: " + why, rel, init.lineno))
     # HamiltonianChain
@@ -314,8 +314,8 @@ def _init_pairs(prog, stores):
     if len(t) == 1 and len(p) == 1 and isinstance(t[0][3], ast.List) and isinstance(p[0][3], ast.List) \
             and len(t[0][3].elts) == 1 and len(p[0][3].elts) == 1:
         pcs = mcmc.posterior_calls(p[0][3])
-        ok = len(pcs) == 1 and ast.unparse(pcs[0].args[0]) == ast.unparse(t[0][3].elts[0])
-        why = f"theta=[{ast.unparse(t[0][3].elts[0])}] probs={ast.unparse(p[0][3])}"
+        ok = len(pcs) == 1 and U(pcs[0].args[0]) == U(t[0][3].elts[0])
+        why = f"theta=[{U(t[0][3].elts[0])}] probs={U(p[0][3])}"
     out.append(struct_ob("init-pair", qual(c, init), ok, "P[0] must be posterior(S[0]): " + why, rel, init.lineno))
     # EnsembleSampler
     c, init = prog.method("EnsembleSampler", "__init__")
@@ -329,10 +329,10 @@ def _init_pairs(prog, stores):
         if len(lcs) == 1:
             g = lcs[0].generators[0]
             pcs = mcmc.posterior_calls(lcs[0].elt)
-            ok = (ast.unparse(g.iter) == "self.walker_positions" and len(pcs) == 1
-                  and ast.unparse(pcs[0].args[0]) == ast.unparse(g.target)
-                  and ast.unparse(lcs[0].elt) == ast.unparse(pcs[0]) and not g.ifs)
-        why = ast.unparse(p[0][3])
+            ok = (U(g.iter) == "self.walker_positions" and len(pcs) == 1
+                  and U(pcs[0].args[0]) == U(g.target)
+                  and U(lcs[0].elt) == U(pcs[0]) and not g.ifs)
+        why = U(p[0][3])
     out.append(struct_ob("init-pair", qual(c, init), ok,
                          "walker_probs must be posterior(t) for each t in walker_positions, in order: " + why,
                          rel, init.lineno))
@@ -352,13 +352,13 @@ def _exchange(prog):
             branch = n
     ok, why = False, "handler for 'update_position' not found"
     if branch is not None:
-        txt = [ast.unparse(s) for s in branch.body]
+        txt = [U(s) for s in branch.body]
         chain = tp.args.args[0].arg
         c1 = any(t == f"{chain}.replace_last(D['position'])" for t in txt)
         # ANF: stored = D["probability"] * inv_temp(receiver)
         c2 = False
         for s in branch.body:
-            if isinstance(s, ast.Assign) and ast.unparse(s.targets[0]) == f"{chain}.probs[-1]":
+            if isinstance(s, ast.Assign) and U(s.targets[0]) == f"{chain}.probs[-1]":
                 ex = Expander(prog, mi, None)
                 try:
                     v = ex.eval(s.value, {})
@@ -390,20 +390,20 @@ def _exchange(prog):
             if isinstance(st, ast.Assign) and isinstance(st.value, ast.Dict) and isinstance(st.targets[0], ast.Name):
                 msgs[st.targets[0].id] = {k.value: v for k, v in zip(st.value.keys, st.value.values) if isinstance(k, ast.Constant)}
             if isinstance(st, ast.Call) and isinstance(st.func, ast.Attribute) and st.func.attr == "send" \
-                    and isinstance(st.func.value, ast.Subscript) and ast.unparse(st.func.value.value) == "self.connections":
-                sends.append((ast.unparse(st.func.value.slice), ast.unparse(st.args[0])))
+                    and isinstance(st.func.value, ast.Subscript) and U(st.func.value.value) == "self.connections":
+                sends.append((U(st.func.value.slice), U(st.args[0])))
         # index used by every field of a message
         def msg_index(m):
             idx = set()
             pos = m.get("position")
             prob = m.get("probability")
             if isinstance(pos, ast.Subscript):
-                idx.add(("position", ast.unparse(pos.slice)))
+                idx.add(("position", U(pos.slice)))
             pv = prob
             if isinstance(pv, ast.Name):
-                d = [s for s in loop.body if isinstance(s, ast.Assign) and ast.unparse(s.targets[0]) == pv.id]
+                d = [s for s in loop.body if isinstance(s, ast.Assign) and U(s.targets[0]) == pv.id]
                 pv = d[-1].value if d else pv
-            subs = {ast.unparse(n.slice) for n in ast.walk(pv) if isinstance(n, ast.Subscript)}
+            subs = {U(n.slice) for n in ast.walk(pv) if isinstance(n, ast.Subscript)}
             idx.add(("probability", ",".join(sorted(subs))))
             return idx, pv
         good = True
@@ -436,14 +436,14 @@ def _exchange(prog):
                          "each exchange message must carry position and de-tempered probability of one chain k and be "
                          "sent to the other chain's pipe: " + why, rel, sw.lineno))
     # positions / probabilities unpacked from the same reply in the same order as worker sends
-    src = {ast.unparse(s.targets[0]): ast.unparse(s.value) for s in sw.body if isinstance(s, ast.Assign)}
+    src = {U(s.targets[0]): U(s.value) for s in sw.body if isinstance(s, ast.Assign)}
     worker_reply = None
     for n in ast.walk(tp):
         if isinstance(n, ast.If) and isinstance(n.test, ast.Compare) and isinstance(n.test.comparators[0], ast.Constant) \
                 and n.test.comparators[0].value == "send_position":
             for s in n.body:
-                if isinstance(s, ast.Expr) and isinstance(s.value, ast.Call) and ast.unparse(s.value.func).endswith(".send"):
-                    worker_reply = ast.unparse(s.value.args[0])
+                if isinstance(s, ast.Expr) and isinstance(s.value, ast.Call) and U(s.value.func).endswith(".send"):
+                    worker_reply = U(s.value.args[0])
     chain = tp.args.args[0].arg
     ok3 = (src.get("positions") == "[k[0] for k in data]" and src.get("probabilities") == "[k[1] for k in data]"
            and src.get("data") == "[pipe.recv() for pipe in self.connections]"
@@ -457,14 +457,14 @@ def _exchange(prog):
 
 def _mode(c, fn, st):
     ret = last_return(fn)
-    txt = ast.unparse(ret.value) if ret else ""
-    src = {ast.unparse(s.targets[0]): s.value for s in fn.body if isinstance(s, ast.Assign)}
+    txt = U(ret.value) if ret else ""
+    src = {U(s.targets[0]): s.value for s in fn.body if isinstance(s, ast.Assign)}
     # locate argmax over the whole P store
     am = None
     for n in ast.walk(fn):
         if isinstance(n, ast.Call):
-            f = ast.unparse(n.func)
-            if f == "argmax" and n.args and ast.unparse(n.args[0]) == f"self.{st.P}":
+            f = U(n.func)
+            if f == "argmax" and n.args and U(n.args[0]) == f"self.{st.P}":
                 am = n
             elif f == f"self.{st.P}.argmax" and not n.args:
                 am = n
@@ -476,22 +476,22 @@ def _mode(c, fn, st):
         for k, v in src.items():
             if v is am:
                 idx_name = k
-        idx_txt = idx_name or ast.unparse(am)
+        idx_txt = idx_name or U(am)
         if st.kind == "attr":
-            subs = [n for n in ast.walk(ret.value) if isinstance(n, ast.Subscript) and ast.unparse(n.value) == f"self.{st.S}"]
+            subs = [n for n in ast.walk(ret.value) if isinstance(n, ast.Subscript) and U(n.value) == f"self.{st.S}"]
             ok = False
             if len(subs) == 1:
                 sl = subs[0].slice
                 first, rest = (sl.elts[0], sl.elts[1:]) if isinstance(sl, ast.Tuple) else (sl, [])
-                ok = ast.unparse(first) == idx_txt and all(
+                ok = U(first) == idx_txt and all(
                     isinstance(r, ast.Slice) and r.lower is None and r.upper is None and r.step is None for r in rest)
             why = f"mode returns `{txt}`"
         else:
             subs = [n for n in ast.walk(ret.value) if isinstance(n, ast.Subscript) and isinstance(n.value, ast.Attribute)
                     and n.value.attr == st.S[1]]
             lcs = [n for n in ast.walk(ret.value) if isinstance(n, ast.ListComp)]
-            ok = (len(subs) == 1 and ast.unparse(subs[0].slice) == idx_txt and len(lcs) == 1
-                  and ast.unparse(lcs[0].generators[0].iter) == f"self.{st.S[0]}")
+            ok = (len(subs) == 1 and U(subs[0].slice) == idx_txt and len(lcs) == 1
+                  and U(lcs[0].generators[0].iter) == f"self.{st.S[0]}")
             why = f"mode returns `{txt}`"
     return struct_ob("mode", qual(c, fn), ok,
                      f"the mode must index the whole sample store {st.S} with argmax of the whole probability store {st.P}: {why}",
